@@ -74,6 +74,7 @@ int H::sidx(std::string const& s)
 static thread_local int t_slots[8];
 int& H::slot(int i) { return t_slots[i & 7]; }
 void H::nested(int, int) { H::emit("! nested-not-supported"); }
+void H::nestedf(int, int) { H::emit("! nested-not-supported"); }
 void H::destroy(int) { H::emit("! destroy-not-supported"); }
 void H::deferred(int) { H::emit("! deferred-not-supported"); }
 
